@@ -73,6 +73,72 @@ func zzProvide(sv *zzsv.T, e *Eval, name string, val zv, prov int) (obj interfac
 	return nil, "", false
 }
 
+
+// zzLiteral spells a value of type t as a literal in the script text (a few
+// representative spellings per type; null has no literal).
+func zzLiteral(sv *zzsv.T, name string, t int) (string, zv, bool) {
+	switch t {
+	case tInt:
+		sp := []string{"0", "1", "(-1)", "70000"}
+		vs := []int64{0, 1, -1, 70000}
+		c := sv.Choice(name+".ilit", len(sp))
+		return sp[c], zInt(vs[c]), true
+	case tFloat:
+		sp := []string{"0.0", "2.5", "(-1.5)"}
+		vs := []float64{0, 2.5, -1.5}
+		c := sv.Choice(name+".flit", len(sp))
+		return sp[c], zFloat(vs[c]), true
+	case tString:
+		sp := []string{"", "a", "0"}
+		c := sv.Choice(name+".slit", len(sp))
+		return "\"" + sp[c] + "\"", zStr(sp[c]), true
+	case tBool:
+		if sv.Choice(name+".blit", 2) == 1 {
+			return "true", zBool(true), true
+		}
+		return "false", zBool(false), true
+	case tArray:
+		if sv.Choice(name+".alit", 2) == 1 {
+			return "[0]", zArr(zInt(0)), true
+		}
+		return "[]", zArr(), true
+	case tHash:
+		if sv.Choice(name+".hlit", 2) == 1 {
+			return "{\"a\": 0}", zv{t: tHash, hk: []zv{zStr("a")}, hv: []zv{zInt(0)}}, true
+		}
+		return "{}", zv{t: tHash}, true
+	case tRegexp:
+		return "/a/", zv{t: tRegexp, s: "a"}, true
+	}
+	return "", zv{}, false
+}
+
+// zzOrigin makes a value of type t with the chosen origin: 0..4 as zzProvide
+// (variable, object field, host function, comparison, built-in), 5 a literal
+// in the script text, 6 (booleans) the result of && or || over two literals.
+func zzOrigin(sv *zzsv.T, e *Eval, name string, t int, prov int, maxLen int) (obj interface{}, expr string, val zv, ok bool) {
+	switch prov {
+	case 5:
+		expr, val, ok = zzLiteral(sv, name, t)
+		return nil, expr, val, ok
+	case 6:
+		if t != tBool {
+			return nil, "", zv{}, false
+		}
+		t1 := []int{tInt, tString, tBool, tFloat}[sv.Choice(name+".lt", 4)]
+		t2 := []int{tInt, tString, tBool, tFloat}[sv.Choice(name+".rt", 4)]
+		x, xv, _ := zzLiteral(sv, name+".l", t1)
+		y, yv, _ := zzLiteral(sv, name+".r", t2)
+		if sv.Choice(name+".logic", 2) == 0 {
+			return nil, "(" + x + " && " + y + ")", zBool(zzTruth(xv) && zzTruth(yv)), true
+		}
+		return nil, "(" + x + " || " + y + ")", zBool(zzTruth(xv) || zzTruth(yv)), true
+	}
+	val = zzValue(sv, name, t, maxLen)
+	obj, expr, ok = zzProvide(sv, e, name, val, prov)
+	return obj, expr, val, ok
+}
+
 var zzTruthPositions = []string{
 	"if (X) { return 1; } return 0;",
 	"n = 0; while (X) { return 1; } return 0;",
@@ -109,11 +175,10 @@ func zzSubst(tmpl, expr string) string {
 // values of every type and provenance.
 func ZZ_C05_Positions(sv *zzsv.T) {
 	t := sv.Choice("type", nTypes)
-	prov := sv.Choice("prov", 5)
+	prov := sv.Choice("prov", 7)
 	pos := sv.Choice("pos", len(zzTruthPositions))
-	val := zzValue(sv, "v", t, 2)
 	e := New("")
-	obj, expr, ok := zzProvide(sv, e, "v", val, prov)
+	obj, expr, val, ok := zzOrigin(sv, e, "v", t, prov, 2)
 	sv.Assume(ok)
 	want := zzTruth(val)
 	sv.Note("types", zzTypeNames[t])
@@ -154,15 +219,25 @@ func ZZ_C05_AndOr(sv *zzsv.T) {
 	op := ops[sv.Choice("op", 2)]
 	lt := sv.Choice("ltype", nTypes)
 	rt := sv.Choice("rtype", nTypes)
-	l := zzValue(sv, "a", lt, 1)
-	r := zzValue(sv, "b", rt, 1)
-	src := "return a " + op + " b;"
+	// operands: two variables, or a literal on either side (a constant
+	// operand is what compile-time rewriting sees)
+	e := New("")
+	lits := sv.Choice("literals", 4)
+	lprov, rprov := 0, 0
+	if lits&1 != 0 {
+		lprov = 5
+	}
+	if lits&2 != 0 {
+		rprov = 5
+	}
+	_, ls, l, ok1 := zzOrigin(sv, e, "a", lt, lprov, 1)
+	_, rs, r, ok2 := zzOrigin(sv, e, "b", rt, rprov, 1)
+	sv.Assume(ok1 && ok2)
+	src := "return " + ls + " " + op + " " + rs + ";"
+	e.Script = src
 	sv.Note("script", src)
 	sv.Note("types", zzTypeNames[lt]+" "+op+" "+zzTypeNames[rt])
 	sv.Region("same_kind_number_or_string", (lt == tInt || lt == tFloat) && (rt == tInt || rt == tFloat) || lt == tString && (rt == tString || rt == tRegexp))
-	e := New(src)
-	e.SetVariable("a", l.obj())
-	e.SetVariable("b", r.obj())
 	sv.Assume(e.Prepare() == nil)
 	out, err := e.Execute(nil)
 	zzDescribe(sv, "result", out, err)
@@ -182,10 +257,9 @@ func ZZ_C05_AndOr(sv *zzsv.T) {
 // for null and false for anything else.
 func ZZ_C05_Bang(sv *zzsv.T) {
 	t := sv.Choice("type", nTypes)
-	prov := sv.Choice("prov", 5)
-	val := zzValue(sv, "v", t, 2)
+	prov := sv.Choice("prov", 7)
 	e := New("")
-	obj, expr, ok := zzProvide(sv, e, "v", val, prov)
+	obj, expr, val, ok := zzOrigin(sv, e, "v", t, prov, 2)
 	sv.Assume(ok)
 	e.Script = "return !" + expr + ";"
 	sv.Note("script", e.Script)
